@@ -273,7 +273,7 @@ func ruleT3(c *Ctx, id string) {
 								continue
 							}
 							lc, ok := ex.Tuple.(*ssa.Call)
-							if !ok || lc.Call.StaticCallee() != lookup {
+							if !ok || staticCallee(lc) != lookup {
 								continue
 							}
 							if !isElem(lc.Call.Args[0], hpos) {
@@ -397,7 +397,7 @@ func ruleT3(c *Ctx, id string) {
 							continue
 						}
 						lc, ok := ex.Tuple.(*ssa.Call)
-						if !ok || lc.Call.StaticCallee() != lookup || sub.resolve(stripConv(lc.Call.Args[2])) != ssa.Value(np) {
+						if !ok || staticCallee(lc) != lookup || sub.resolve(stripConv(lc.Call.Args[2])) != ssa.Value(np) {
 							continue
 						}
 						n, fl, _, _ := loadedFieldS(pr[1], sub)
@@ -424,7 +424,7 @@ func ruleT3(c *Ctx, id string) {
 			for _, e := range elems {
 				for w := range bwdSources(stripConv(e)) {
 					if ex, ok := w.(*ssa.Extract); ok && ex.Index == 0 {
-						if cl, ok := ex.Tuple.(*ssa.Call); ok && cl.Call.StaticCallee() == lookup {
+						if cl, ok := ex.Tuple.(*ssa.Call); ok && staticCallee(cl) == lookup {
 							if _, path := paramFieldPath(cl.Call.Args[2]); path != "" {
 								names[path] = true
 							}
@@ -444,7 +444,7 @@ func ruleT3(c *Ctx, id string) {
 				nm := nm
 				isLk := func(in ssa.Instruction) bool {
 					cl, ok := in.(*ssa.Call)
-					if !ok || cl.Call.StaticCallee() != lookup {
+					if !ok || staticCallee(cl) != lookup {
 						return false
 					}
 					_, path := paramFieldPath(cl.Call.Args[2])
@@ -697,7 +697,7 @@ func ruleNoent(c *Ctx, id string) {
 	isLookupRes := func(v ssa.Value) bool {
 		for w := range bwdSources(stripConv(v)) {
 			if ex, ok := w.(*ssa.Extract); ok && ex.Index == 0 {
-				if cl, ok := ex.Tuple.(*ssa.Call); ok && cl.Call.StaticCallee() == lookup {
+				if cl, ok := ex.Tuple.(*ssa.Call); ok && staticCallee(cl) == lookup {
 					return true
 				}
 			}
@@ -820,7 +820,7 @@ func ruleColdRead(c *Ctx, id string) {
 			scopes := scopesOf(V.GetInodeLocked)
 			if ps, other := producersOf(buf); !other {
 				for _, pr := range ps {
-					if pr.call.Call.StaticCallee() != V.LogLoad {
+					if staticCallee(pr.call) != V.LogLoad {
 						continue
 					}
 					var psc Scope
@@ -852,7 +852,7 @@ func ruleColdRead(c *Ctx, id string) {
 func sliceElems(v ssa.Value, builder *ssa.Function) []ssa.Value {
 	v = stripConv(v)
 	if cl, ok := v.(*ssa.Call); ok {
-		if builder != nil && cl.Call.StaticCallee() == builder {
+		if builder != nil && staticCallee(cl) == builder {
 			return cl.Call.Args
 		}
 		return nil
@@ -979,7 +979,7 @@ func ruleStale(c *Ctx, id string) {
 			return false
 		}
 		for _, p := range ps {
-			if p.call.Call.StaticCallee() != V.lockInodes {
+			if staticCallee(p.call) != V.lockInodes {
 				return false
 			}
 			elems := sliceElems(argN(p.call, 1), twoInums)
